@@ -168,8 +168,14 @@ def prec(e, insub):
 def juxtaposable(e):
     """a seq node inside a word that can be written by juxtaposition (no two adjacent bare literals)"""
     cs = e[1]
+
+    def ends_bare(x):        # also through a (parenthesised) sequence: `(.. b)c` would put the literals b and c side by side
+        return tail_is_bare_lit(x) or (x[0] == "seq" and ends_bare(x[1][-1]))
+
+    def starts_lit(x):
+        return head_is_lit_text(x) or (x[0] == "seq" and starts_lit(x[1][0]))
     for a, b in zip(cs, cs[1:]):
-        if tail_is_bare_lit(a) and head_is_lit_text(b):
+        if ends_bare(a) and starts_lit(b):
             return False
     # every factor must be printable as a unary expression or be parenthesised; always possible
     return True
